@@ -1047,14 +1047,10 @@ func (w *World) callBuiltin(fr *frame, fn *ssa.Builtin, args []Value) Value {
 			out[n+i] = copyVal(v)
 		}
 		// spare capacity holds zero values of the element type
-		if ncap > n+len(src) {
-			var z Value
-			if len(out) > 0 {
-				z = w.zeroLike(out[0])
-			}
+		if ncap > n+len(src) && len(out) > 0 {
 			full := out[:ncap]
 			for i := n + len(src); i < ncap; i++ {
-				full[i] = z
+				full[i] = w.zeroLike(out[0]) // a distinct zero per slot: aggregates are stored in place
 			}
 		}
 		return out
